@@ -105,7 +105,11 @@ func run(r *mon.Run) {
 			plen = 200000
 		}
 		spec := gen.DefaultSXG(g, ver, id, "example.com", plen, rs)
-		spec.URL = "https://example.com/" + strings.Repeat("p", g.Intn(40)) + mon.Pick(g, []string{"", "?q=1", "/a%20b", "/%E3%81%82", "/caf\u00e9/", "/a|b", "/a b", "/x#", "/%7euser/%2f", "/a/../b/./c", "?", "/\u65e5\u672c?q=\u00e9"})
+		scheme := "https"
+		if g.Chance(1, 8) {
+			scheme = mon.Pick(g, []string{"HTTPS", "Https", "hTTPs"}) // scheme names are case-insensitive; the file carries the bytes as given
+		}
+		spec.URL = scheme + "://example.com/" + strings.Repeat("p", g.Intn(40)) + mon.Pick(g, []string{"", "?q=1", "/a%20b", "/%E3%81%82", "/caf\u00e9/", "/a|b", "/a b", "/x#", "/%7euser/%2f", "/a/../b/./c", "?", "/\u65e5\u672c?q=\u00e9"})
 		h := http.Header{"Content-Type": {mon.Pick(g, []string{"text/html", "application/octet-stream", "text/plain; charset=utf-8"})}}
 		for j := 0; j < g.Intn(6); j++ {
 			name := mon.Pick(g, []string{"x-lower", "X-Upper", "X-MiXeD-CaSe", "x_under", "Link", "ETag", "vary", "X-Numb3r", "X_Under_Upper", "X^Caret", "x!#$%&'*+.^_`|~", "X`Tick|Bar~Tilde"}) + fmt.Sprint(j)
